@@ -21,6 +21,10 @@ from props.c06 import check_iter, struct_name
 
 PROP = 'C02'
 UNSAFE_OK = {S.UNWRAP_UNCHECKED, S.MU_ASSUME}
+# `unreachable_unchecked()` has the proof rule "no input reaches it": the rules built on the scanner (try_from, as_str, next, next_back)
+# compute the input region of every path and report any non-returning path whose region is not empty, so in a body that such a rule
+# accepted the call sits on a path no declared input takes.  Other bodies have no such argument: there it stays without a proof rule.
+UNREACHABLE_UNCHECKED = 'core::hint::unreachable_unchecked'
 
 def subterm(t, x):
     if t == x:
@@ -56,20 +60,21 @@ def check_instance(inst, F, ctx, extra, collect=None):
     I = Items(inst)
     V = View(inst, I, F)
     covered = {}       # body path -> True/False (rule verdict)
+    scanned = set()    # bodies decided by a scanner-based rule (every path has an input region)
     def mark(path, ok):
         covered[path] = bool(ok) and covered.get(path, True)
     # try_from / TryFrom
     it = I.require_fn(ctx, 'try_from')
     if it is not None:
-        mark(it['path'], check_try_from(inst, V, ctx, I.body(it['path']), 'try_from', 'Some') is not None)
+        mark(it['path'], check_try_from(inst, V, ctx, I.body(it['path']), 'try_from', 'Some') is not None); scanned.add(it['path'])
     if 'TryFrom' in inst.feats:
         for im, p in I.trait_fn('core::convert::TryFrom', 'try_from'):
-            mark(p, check_try_from(inst, V, ctx, I.body(p), 'TryFrom', 'Ok') is not None)
+            mark(p, check_try_from(inst, V, ctx, I.body(p), 'TryFrom', 'Ok') is not None); scanned.add(p)
     # as_str and the functions the delegating traits call
     checked = {}
     it = I.require_fn(ctx, 'as_str')
     if it is not None:
-        checked[it['path']] = check_as_str(inst, V, ctx, I.body(it['path']), 'as_str')
+        checked[it['path']] = check_as_str(inst, V, ctx, I.body(it['path']), 'as_str'); scanned.add(it['path'])
     for f, tr in (('Debug', 'core::fmt::Debug'), ('Display', 'core::fmt::Display')):
         if f in inst.feats:
             for im, p in I.trait_fn(tr, 'fmt'):
@@ -78,7 +83,7 @@ def check_instance(inst, F, ctx, extra, collect=None):
         for im, p in I.trait_fn('core::convert::From', 'from', lambda t, im: t['k'] == 'ref'):
             check_delegation(inst, V, ctx, p, 'IntoStr', checked)
     for p, ok in checked.items():
-        mark(p, ok)
+        mark(p, ok); scanned.add(p)          # every entry is an as_str body decided by check_as_str (requested or helper)
     # from_str / FromStr
     it = I.require_fn(ctx, 'from_str')
     if it is not None:
@@ -106,13 +111,17 @@ def check_instance(inst, F, ctx, extra, collect=None):
                     ok = check_range(inst, V, ctx, I.body(rt['path']), inst.mod + '::' + struct_name(inst, 'iter'), r[0], r[1])
                 mark(rt['path'], ok)
     for (p, d), ok in steps.items():
-        mark(p, ok)
+        mark(p, ok); scanned.add(p)
     # ---- obligations
     obs = enumerate_obligations(inst, I)
     if obs:
         ctx.nontrivial.add(tuple(inst.rec['classes'][:5]) + tuple(sorted({o[1] for o in obs})))
     for path, kind, site, term in obs:
         owner = re.sub(r'(::\{closure#\d+\})+$', '', path)     # a closure inside a derived body belongs to that body
+        if kind == 'unsafe-call:' + UNREACHABLE_UNCHECKED and path in scanned and covered.get(path):
+            ctx.obligation(True)
+            ctx.ok('obligation:unreachable_unchecked', inst)
+            continue
         if kind == 'rawptr' or (kind.startswith('unsafe-call:') and kind.split(':', 1)[1] not in UNSAFE_OK):
             ctx.obligation(False)
             ctx.violation('unsafe-whitelist', inst, owner.split('::')[-1], 'derived code performs an unsafe operation the rule set has no proof rule for: %s at %s bb%s' % (kind, path.split('::', 2)[-1], site[0]),
